@@ -13,6 +13,8 @@
     fragmentSegment.createFormat / appendValue     → `fragFmt` (`%-Wd`: LEFT justified), `fragAppend` (without the total and without `0`:
                                                      `%0*d` with the trailing zeroes stripped, regexp `\A([0-9]+?)0*\z`)
     day/hour/minute/second/millisecond/nanosecondSegment.appendTo → `segValue` (Go's `/` and `%` truncate: `Int.tdiv`, `Int.tmod`)
+    utils/pow.go Int64Pow                          → `int64Pow` (0 for an exponent ≤ 0 — so the remainder `v %= Int64Pow(10, w)` of a
+                                                     nanosecond segment of width 0 that is not the total divides by zero: `none`, a Go fault)
   Strings are sequences of Unicode scalar values.  Core-only file (linked into the driver).
 -/
 import Pcore.Model.Format
@@ -157,29 +159,36 @@ def fragAppend (v : VSeg) (n : Int) : Option Str :=
     else some (trimZeroes (goInteger ⟨false, true, false, false, false, some w, none, 'd'⟩ 10 false n))
   else fmtD (fragFmt v.pad w) n
 
-/-- the number a segment shows (Go's integer division and remainder truncate towards zero) -/
-def segValue (v : VSeg) (ns : Int) : Int :=
+/-- `utils.Int64Pow(10, e)` for the exponents that occur: 0 when the exponent is not positive -/
+def int64Pow10 (e : Nat) : Int := if e = 0 then 0 else (10 : Int) ^ e
+
+/-- the number a segment shows (Go's integer division and remainder truncate towards zero); `none` = integer divide by zero -/
+def segValue (v : VSeg) (ns : Int) : Option Int :=
   match v.kind with
-  | .day => ns.tdiv nsPerDay
-  | .hour => if v.useTotal then ns.tdiv nsPerHour else (ns.tdiv nsPerHour).tmod 24
-  | .minute => if v.useTotal then ns.tdiv nsPerMin else (ns.tdiv nsPerMin).tmod 60
-  | .second => if v.useTotal then ns.tdiv nsPerSec else (ns.tdiv nsPerSec).tmod 60
-  | .milli => if v.useTotal then ns.tdiv 1000000 else (ns.tdiv 1000000).tmod 1000
+  | .day => some (ns.tdiv nsPerDay)
+  | .hour => some (if v.useTotal then ns.tdiv nsPerHour else (ns.tdiv nsPerHour).tmod 24)
+  | .minute => some (if v.useTotal then ns.tdiv nsPerMin else (ns.tdiv nsPerMin).tmod 60)
+  | .second => some (if v.useTotal then ns.tdiv nsPerSec else (ns.tdiv nsPerSec).tmod 60)
+  | .milli => some (if v.useTotal then ns.tdiv 1000000 else (ns.tdiv 1000000).tmod 1000)
   | .nano =>
     let w := v.width.getD 9
     if w < 9 then
-      let x := ns.tdiv ((10 : Int) ^ (9 - w))
-      if v.useTotal then x else x.tmod ((10 : Int) ^ w)
-    else if v.useTotal then ns else ns.tmod nsPerSec
+      let x := ns.tdiv (int64Pow10 (9 - w))
+      if v.useTotal then some x
+      else if int64Pow10 w = 0 then none else some (x.tmod (int64Pow10 w))
+    else some (if v.useTotal then ns else ns.tmod nsPerSec)
 
 /-- `segment.appendTo` -/
 def segText (s : Seg) (ns : Int) : Option Str :=
   match s with
   | .lit l => some l
   | .val v =>
-    match v.kind with
-    | .milli | .nano => fragAppend v (segValue v ns)
-    | _ => fmtD (valueFmt v.pad (v.width.getD v.kind.defaultWidth)) (segValue v ns)
+    match segValue v ns with
+    | none => none
+    | some n =>
+      match v.kind with
+      | .milli | .nano => fragAppend v n
+      | _ => fmtD (valueFmt v.pad (v.width.getD v.kind.defaultWidth)) n
 
 def segsText : List Seg → Int → Option Str
   | [], _ => some []
